@@ -186,6 +186,16 @@ def gen_location(tier, rng):
             tr = [rng.choice(full) for _ in range(n)]
             for rm in _range_values([p[0] for p in tr], [p[1] for p in tr], rng, 3):
                 add(tr, bbox, rm)
+    # short hops far from (0, 0): a few tens of metres next to the antimeridian / at high latitude, against a range_max of
+    # metres - the hop is tiny RELATIVE to the coordinates (below 1e-5 of them) but not in metres
+    for _ in range(40 if tier == "quick" else 400):
+        lon0, lat0 = F(rng.choice([179, -179, 120, 10])), F(rng.choice([60, -60, 75, 5]))
+        n = rng.randint(2, 5)
+        tr = [(lon0, lat0)]
+        for _ in range(n - 1):
+            tr.append((tr[-1][0] + F(rng.choice([1, -1, 2, 0]), 2 ** 11), tr[-1][1] + F(rng.choice([1, -1, 0]), 2 ** 12)))
+        for rm in _range_values([p[0] for p in tr], [p[1] for p in tr], rng, 2) + [F(1), F(20)]:
+            add(tr, None, rm)
     # the (lat, lon) argument order: a track on which swapping the roles changes the verdict
     tr = [(F(10), F(80)), (F(50), F(80))]          # 40 degrees of longitude at latitude 80: about 760 km
     d = hops([p[0] for p in tr], [p[1] for p in tr])[0][1]
